@@ -18,6 +18,6 @@ CONSTANTS
   Eager = FALSE
   WithHist = FALSE
 VIEW ViewNoHist
-INVARIANTS TypeOK FailOnlyWhen AttemptsBounded NoLoss ErrOnFault ClosedRejects CloseWakesAll ArmedIsShortWhenOwed OneAtATime IdleSound NoLockCycle
+INVARIANTS TypeOK FailOnlyWhen AttemptsBounded NoLoss ErrOnFault ClosedRejects CloseWakesAll ArmedIsShortWhenOwed OneAtATime IdleSound NoSpuriousUnexpected NoLockCycle
 PROPERTIES CallsEnd
 CHECK_DEADLOCK FALSE
